@@ -87,7 +87,15 @@ def fresh(name, lo, hi):
     w, s = bits_for(lo, hi)
     r = SymInt(z3.BitVec(name, w), lo, hi)
     r.aff = (name, 1, 0)
+    _ROOTS[name] = r
     return r
+
+_ROOTS = {}
+def _aff_exact_div(a, m):
+    """a // m when a's exact affine form c*root + k has c and k divisible by m (no rounding involved)"""
+    f = _aff(a)
+    if f is None or f[0] is None or f[1] % m or f[2] % m or f[0] not in _ROOTS: return None
+    return _add(lift(_mul(_ROOTS[f[0]], lift(f[1] // m))), lift(f[2] // m))
 
 def _aff(x):
     """exact affine form (root symbol, coefficient, constant) of a lifted value, when known"""
@@ -407,6 +415,9 @@ def _rshift(a, b):
     if b.lo == b.hi:
         k = b.lo
         if k == 0: return a
+        if a.lo >= 0:
+            r = _aff_exact_div(a, 1 << k)
+            if r is not None: return r
         if k >= a.w:
             if not a.signed: return 0
             return mk(z3.SignExt(0, z3.Extract(a.w - 1, a.w - 1, a.t)), -1, 0 if a.hi >= 0 else -1)
@@ -418,6 +429,8 @@ def _rshift(a, b):
 def _mod(a, b):
     if b.lo != b.hi or b.lo <= 0: raise EngineError('mod by symbolic or non-positive value')
     m = b.lo
+    fa = _aff(a)
+    if fa is not None and fa[0] is not None and fa[1] % m == 0: return fa[2] % m
     if m & (m - 1) == 0:
         k = m.bit_length() - 1
         if k == 0: return 0
